@@ -9,9 +9,9 @@ TIE = (" Tie to the code, on every run: the harness (real crate, rebuilt from /r
 
 CLAIMS = {
     "C01": {
-        "text": "Proved (Lean, all well-founded graphs: any fan-out, diamonds, self-products, depth; any lawful closures): a completed pass from a clean state enters exactly the nodes reachable from the result through tracked operands, each exactly once, each only after all its consumers delivered, touches no other gradient cell and ends clean - so no path is dropped and none is followed twice (C01_every_path_once_partial, from backward_counts + backward_frame). PARTIAL: that the merged delta equals the seed-weighted sum of partial derivatives is not yet a theorem; it is decided on every run by comparing every gradient of random DAG programs (incl. chains with 2^45..2^60 paths, broadcasting + sharing, data-dependent control flow) with an independent forward-mode (dual number) evaluation over the specification operations." + TIE,
-        "note": COMMON_NOTE + " User closures are assumed lawful; seeds are plain arrays.",
-        "technique": "Lean 4 proof of the engine's counting/ordering invariant (induction over fuel with a pend-generalised invariant) + differential correspondence with a dual-number forward-mode oracle",
+        "text": "Proved (Lean): for every well-founded graph (any fan-out, diamonds, self-products, depth; control flow only decides which graph was recorded) with lawful closures whose per-operand contributions are additive and shape-correct (structure `Sem`), a pass that completes from a clean state changes every coordinate of the gradient stored at every node l by exactly the path sum P root l seed - the sum over all tracked paths of the composed contributions, each path once (C01_backward_pathsum, C01_pathsum_unfold, from the conserved quantity T = grad + sum of path sums of pending deltas) - leaves it with the node's shape (C01_grad_shape), enters exactly the reachable nodes once each after all their consumers and touches nothing else (C01_every_path_once). The same-shape addition used when merging is proved pointwise from C04 (add_same). PARTIAL: that each built-in closure's contribution Lambda n i is the transpose-Jacobian (i.e. that the `Sem` hypotheses hold for the heap's graph with the documented derivatives) is not yet proved per operation; it is decided on every run by comparing every gradient of random DAG programs (chains with 2^45..2^60 paths, broadcasting + sharing, views of the same array, data-dependent control flow, zero / one-hot seeds) with an independent forward-mode (dual number) evaluation over the specification operations." + TIE,
+        "note": COMMON_NOTE,
+        "technique": 'Lean 4 proof of the engine: counting invariant + conserved path-sum quantity (induction over fuel, pend-generalised invariants); differential check of the per-operation hypotheses against a dual-number oracle',
     },
     "C02": {
         "text": "Proved over the reals with Mathlib's HasDerivAt: the tangent rule of every scalar function of the reference differentiation (exp, ln, power with any real exponent, reciprocal, quotient, product, sigmoid, relu) is its mathematical derivative at every in-domain point (C02_exp ... C02_relu). PARTIAL: the per-operation structure (which element receives which contribution under broadcasting, overlapping conv windows, several summed dimensions, all transpose combinations, additive term) is decided on every run: gradients of single-operation programs with non-uniform seeds are compared with the forward-mode reference built from the specification operations, exhaustively over small shape grids and randomly beyond." + TIE,
@@ -54,14 +54,14 @@ CLAIMS = {
         "technique": "Lean 4 proofs (allocation lemmas, counting theorem, frame lemma) + differential flag/gradient-presence checks",
     },
     "C10": {
-        "text": "Proved for every well-founded graph and every root/seed: a completed pass from a clean state (all counters zero, no pending delta) ends clean (C10_clean), hence any sequence of passes - same result again, shared sub-graphs, interior node then containing result - keeps the state clean and each pass starts from the same counter/pending state (C10_clean_history); the gradient cell is only changed by adding the entering delta (C10_store_adds). PARTIAL: additivity of the *values* across passes follows from C01's value half, which is decided on every run: after every pass of random histories (with clears/sets/drops in between) every gradient is compared with the sum of per-pass forward-mode references since the last clear, and counters/pending flags of every live node are probed." + TIE,
+        "text": 'Proved for every well-founded graph and every root/seed: a completed pass from a clean state ends clean (C10_clean), any sequence of passes keeps the state clean (C10_clean_history), and - with closures as in C01 - after ANY list of passes (same result again, interior node then containing result, shared sub-graphs) every gradient coordinate equals its starting value plus the sum of the path sums of the individual passes, i.e. what each pass would have added alone, independent of what ran before (C10_additive); the gradient cell is only changed by adding the entering delta (C10_store_adds). On every run: pass sequences (2-4 passes, optional clear) next to one fresh program instance per pass, `sumgrad` compares the accumulated gradient with the sum of the single-pass gradients on the implementation itself; counters and pending flags of every node are probed after every pass.' + TIE,
         "note": COMMON_NOTE,
-        "technique": "Lean 4 proof of the clean-to-clean invariant (counting theorem) + induction over pass sequences; differential accumulation oracle",
+        "technique": 'Lean 4 proof: clean-to-clean (counting theorem) + additive accumulation over pass lists (path-sum theorem, induction over the list); metamorphic accumulation check on the implementation',
     },
     "C11": {
-        "text": "Proved for every well-founded graph (any fan-out, diamonds, self-product chains) with lawful closures: in a completed pass the log of node entries has no duplicates and is exactly the set of nodes reachable through tracked operands (C11_once), every node is entered after all its consumers in the graph (C11_after), and the number of entries is the number of distinct reachable nodes whatever the number of paths (C11_linear_work). The 'complete adjoint' half is C01's value half. On every run the invocation log of user closures given to Array::op (label, received delta) is compared, incl. exhaustive small DAGs and chains with 2^45..2^60 paths." + TIE,
-        "note": COMMON_NOTE + " User closures are assumed lawful (Some exactly for tracked operands).",
-        "technique": "Lean 4 proof of exactly-once / consumers-first by a counting invariant generalised over pending deliveries",
+        "text": 'Proved for every well-founded graph (any fan-out, diamonds, self-product chains) with lawful closures: in a completed pass the log of node entries has no duplicates and is exactly the set of nodes reachable through tracked operands (C11_once), every node is entered after all its consumers in the graph (C11_after), and the number of entries is the number of distinct reachable nodes whatever the number of paths (C11_linear_work). That the delta a node is entered with is the complete adjoint follows from the path-sum theorem of C01 (all contributions are merged before entry, entry happens once). On every run the invocation log of user closures given to Array::op (label, received delta) is compared as a sorted list, incl. exhaustive small DAGs and chains with 2^45..2^60 paths, with a timeout that flags path-exponential work.' + TIE,
+        "note": COMMON_NOTE,
+        "technique": 'Lean 4 proof of exactly-once / consumers-first by a counting invariant generalised over pending deliveries; differential invocation-log check',
     },
     "C12": {
         "text": "Proved: a clone is the same handle under another name (C12_clone_is_handle); every operation and the backward pass are functions of the heap and the operand handles only - under any other name environment (operands replaced by clones, handles dropped, variables re-bound, pass started from a clone) they return the same result and make the same heap change (C12_op_ignores_names, C12_unary_ignores_names, C12_pass_ignores_names); gradients are read through the node id that clones share (C12_shared_grad); drop changes nothing but the environment (C12_drop). On every run each random program is executed next to an edited twin and all values/gradients must coincide (metamorphic, decided on the implementation's own outputs)." + TIE,
@@ -89,9 +89,9 @@ CLAIMS = {
         "technique": "Lean 4 proofs (index algebra by induction, omega); exhaustive differential check over small shapes",
     },
     "C17": {
-        "text": "Proved: backward without a seed is the same computation as backward with a seed of ones of the handle's dimensions, which exists for every well-formed shape (C17_default, C17_ones_exists). PARTIAL: linearity in the seed is a corollary of C01's value half and is decided on every run on the implementation's own outputs: three fresh instances of random programs are run with s1, s2 and alpha*s1+beta*s2 and alpha*g1+beta*g2 = g3 is checked cell by cell (exact integers), plus omitted seed vs explicit ones." + TIE,
+        "text": "Proved: backward without a seed is the same computation as backward with a seed of ones (C17_default, C17_ones_exists); the gradient change is additive in the seed - the change for s1+s2 is the sum of the changes for s1 and s2 (C17_additive, from additivity of the path sum) - and homogeneous - the change for alpha*s is alpha times the change for s whenever every operation's contribution commutes with scaling by alpha (C17_homogeneous; true of closures that are linear in the delta); together: linearity. On every run, three fresh instances of random programs are run with s1, s2 and alpha*s1+beta*s2 and alpha*g1+beta*g2 = g3 is checked cell by cell on the implementation's own outputs (exact integers), plus omitted seed vs explicit ones." + TIE,
         "note": COMMON_NOTE,
-        "technique": "Lean 4 proof of the default-seed identity; metamorphic linearity check",
+        "technique": 'Lean 4 proof: additivity and homogeneity of the path sum (corollaries of the path-sum theorem); metamorphic linearity check',
     },
     "C18": {
         "text": "Proved: who owns a buffer is determined by live names, layers, model outputs and recorded nodes only - a backward pass with its pending deltas and stored gradients, and gradient read/clear/set, change no owner count (C18_pass_holds_nothing, C18_grad_ops_hold_nothing); no roots means no owners (C18_no_roots_no_owners). On every run: random programs are built and differentiated, every derived result is dropped in random order, Rc owner counts (probe hook) are compared with the model after every drop, and Vec::from must succeed on every leaf, with and without stored gradients; in training runs the previous iteration's input is owned again after the next forward." + TIE,
